@@ -243,7 +243,7 @@ Proof.
   repeat match goal with |- context [if ?c then _ else _] => destruct c eqn:? end; auto.
   - (* alg *) inversion R; subst; cbn in C |- *; try discriminate; auto.
   - (* crit *) apply andb_true_iff in C as [Cp Cc]. rewrite Cp. cbn [andb].
-    destruct v; cbn [ensure_critical] in Cc; try discriminate. inversion R as [| | | | | |la0 lb0 F2|]; subst.
+    destruct v; cbn [ensure_critical] in Cc; try discriminate. inversion R as [| | | | | | |la0 lb0 F2|]; subst.
     apply andb_true_iff in Cc as [Cl Cf]. cbn [ensure_critical]. apply andb_true_iff. split.
     { clear -Cl F2. destruct F2; [discriminate|reflexivity]. }
     pose proof (simple_arr_elems _ Sv) as Ss. clear Cl Sv Nn Uk R.
